@@ -26,6 +26,10 @@ def expr_text(e):
         return e['py']
     if 'pipe' in e:
         return ' | '.join(expr_text(x) for x in e['pipe'])
+    if 'attr' in e:
+        return '(%s).%s' % (expr_text(e['attr'][0]), e['attr'][1])
+    if 'python' in e:
+        return 'python: ' + expr_text(e['python'])
     if 'not' in e:
         return 'not: ' + expr_text(e['not'])
     if 'exists' in e:
@@ -78,7 +82,9 @@ def serialise(node, prefix='tal'):
     if node.get('indent') is not None:
         out += '\n' + ' ' * node['indent']
     out += '<' + node['tag']
-    stat = ['%s="%s"' % (n, v) for n, v in node.get('static', [])]
+    stat = ['%s="%s"' % (n, v if isinstance(v, str) else ''.join(
+        x if isinstance(x, str) else '${' + attr_escape(expr_text(x['interp'])) + '}' for x in v))
+        for n, v in node.get('static', [])]
     present = [s for s in node.get('order', STATEMENTS) if s in node]
     present += [s for s in STATEMENTS if s in node and s not in present]
     dyn = ['%s:%s="%s"' % (prefix, TALNAME.get(s, s), attr_escape(statement_text(node, s)))
